@@ -108,10 +108,16 @@ def err_only_guard(an, d):
                 if sel and all(t.op == "agg" and t.args[3] == "Err" for t in sel):
                     return True
         return False
+    sides = {}
     for truth in ("true", "false"):
         sel = [t for t, st in leaves if (truth, d) in st.facts]
+        sides[truth] = sel
         if sel and all(t.op == "agg" and t.args[3] == "Err" for t in sel):
             return True
+    # an assertion on the length (`debug_assert!(len as u64 <= self.stream_len)`): one side never returns at all, so the length
+    # decides nothing about any answer (whether the assertion can fail is the panic census's question, C08 / C01)
+    if (not sides["true"]) != (not sides["false"]):
+        return True
     return False
 
 
